@@ -971,6 +971,7 @@ func main() {
 	register(readersFamily())
 	register(typedFamily())
 	register(decodersFamily())
+	register(spareFamily())
 	core.Main(&core.Property{
 		ID:    "C11",
 		Level: "exploration",
